@@ -319,7 +319,12 @@ class TradingEnv(gymnasium.Env):
         else:
             info = {"_rebalancing": rebalancing}
         self._process_nonlatent_events()
-        reward = self._reward.calculate(self)
+        try:
+            reward = self._reward.calculate(self)
+        except EndOfEpisodeError:
+            # The account went broke during this step: the episode is over.
+            self._done = True
+            raise
 
         # Tear down events to notify observers.
         self._visits[self.now()] += 1
